@@ -51,14 +51,104 @@ Bodies    == {"validExport", "illformedXml", "badUtf8",
               "wrongElement", "unknownMethod", "missingParam", "dupParam",
               "nullParam", "nonInstance", "empty"}
     \* ...U : the offending version text contains characters outside Latin-1
+    \* (a 17th body class, "lexeme", exists only together with a position and
+    \* a lexeme class, see below)
+
+(* ---- lexeme classes at the positions the CIM-XML reader CONVERTS --------*)
+(* A body may be well-formed and follow the element structure of the DTD    *)
+(* and still carry, at one attribute or value position whose text the      *)
+(* reader converts (type names, numbers, booleans, datetimes, char16,       *)
+(* ARRAYSIZE, EmbeddedObject, embedded object text), a lexeme outside the   *)
+(* language of that position.  lpos = the position, lex = the class of the *)
+(* lexeme; "none"/"none" for all other requests.  The alphabets are built  *)
+(* from the grammar of each language by the usual case distinction: a       *)
+(* member of the language in a less common spelling (Sure), a member with   *)
+(* leading / trailing extra characters (name characters, blanks, a line     *)
+(* terminator), a truncated member, a member of a neighbouring language,    *)
+(* empty, out of range / huge, characters outside Latin-1.                  *)
+TypeLex == {"unknown", "numSuffix", "numTrailSp", "numTrailNl", "numPrefix",
+            "numLeadSp", "otherSuffix", "badWidth", "upper", "empty",
+            "reference", "nonLatin"}
+    \* num... : the name of a numeric CIM type (uint8 .. real64) plus extra
+    \* characters: Suffix = name characters after it, TrailSp = blanks / TAB /
+    \* CR after it, TrailNl = exactly one LF after it, Prefix / LeadSp = the
+    \* same before it; otherSuffix: string/boolean/datetime/char16 + characters
+NumLex == {"hex", "hexPlus", "decPlus", "hexSuffix", "hexPrefix",
+           "hexNoDigits", "hexHuge", "decSuffix", "decPrefix", "empty",
+           "innerSpace", "word", "doubleSign", "outOfRange", "hugeDec",
+           "fraction", "exponent", "hugeExp", "nan", "inf", "underscore",
+           "uniDigits", "otherBase", "leadingZero", "padded", "nlInside",
+           "nonLatin"}
+BoolLex == {"upper", "padded", "empty", "word", "digit", "suffix", "prefix",
+            "abbrev", "two", "nonLatin"}
+DtLex == {"interval", "short", "long", "empty", "suffix", "prefix",
+          "badMonth", "badDay", "badMinute", "badSep", "noSign", "letters",
+          "uniDigits", "hugeOffset", "asterisks", "nonLatin"}
+C16Lex == {"empty", "two", "astral", "blank"}
+ASizeLex == {"word", "empty", "negative", "hex", "fraction", "huge",
+             "suffix", "padded", "underscore", "uniDigits", "zero"}
+EmbAttrLex == {"unknown", "upper", "suffix", "padded", "empty", "boolWord",
+               "nonLatin"}
+EmbXmlLex == {"notXml", "illformed", "empty", "blank", "otherElement",
+              "twoRoots", "missingAttr", "badChild"}
+VTypeLex == {"unknown", "suffix", "upper", "empty", "nonLatin"}
+
+(* position -> lexeme classes that can stand there                         *)
+LexAt ==
+  [ \* TYPE of an element that has a value to convert
+    propType |-> TypeLex, arrType |-> TypeLex, qualType |-> TypeLex,
+    keyType |-> TypeLex,          \* KEYVALUE in a reference property
+    embPropType |-> TypeLex,      \* PROPERTY of an embedded instance
+    clsPropType |-> TypeLex,      \* PROPERTY (with default) of an embedded class
+    \* TYPE of an element without a value
+    propTypeNull |-> TypeLex, clsMethodType |-> TypeLex,
+    clsParamType |-> TypeLex,
+    keyValueType |-> VTypeLex,
+    \* values
+    intValue |-> NumLex, arrValue |-> NumLex, qualValue |-> NumLex,
+    embPropValue |-> NumLex,
+    realValue |-> NumLex \ {"outOfRange"},
+    keyNumValue |-> NumLex \ {"outOfRange"},  \* KEYVALUE VALUETYPE=numeric, no TYPE
+    boolValue |-> BoolLex,
+    boolAttr |-> BoolLex,   \* PROPAGATED OVERRIDABLE TOSUBCLASS TOINSTANCE TRANSLATABLE
+    dtValue |-> DtLex, char16Value |-> C16Lex, arraySize |-> ASizeLex,
+    embAttr |-> EmbAttrLex,                     \* on a string property
+    embAttrNum |-> EmbAttrLex \cup {"validWord"}, \* on a numeric property
+    embValue |-> EmbXmlLex, embArrValue |-> EmbXmlLex ]
+LexPositions == DOMAIN LexAt
+AllLexemes == UNION {LexAt[p] : p \in LexPositions}
+
+(* members of the language of the position by every reading of DSP0201 /   *)
+(* DSP0004 (hexadecimal and explicitly signed integers, upper-case boolean  *)
+(* words, intervals, reals with fraction / exponent): such a request is a   *)
+(* VALID indication                                                         *)
+IntPositions == {"intValue", "arrValue", "qualValue", "embPropValue"}
+Sure(p, x) ==
+  \/ p \in IntPositions /\ x \in {"hex", "hexPlus", "decPlus"}
+  \/ p = "keyNumValue" /\ x \in {"hex", "decPlus"}
+  \/ p = "realValue" /\ x \in {"fraction", "exponent"}
+  \/ p \in {"boolValue", "boolAttr"} /\ x = "upper"
+  \/ p = "dtValue" /\ x = "interval"
 
 Requests == [verb : Verbs, accept : HdrVals, charset : HdrVals,
              range : RangeVals, ctype : HdrVals, cenc : HdrVals,
-             clen : CLens, body : Bodies]
+             clen : CLens, body : Bodies, lpos : {"none"}, lex : {"none"}]
+
+LexBodyOf(p, x) == IF Sure(p, x) THEN "validExport" ELSE "lexeme"
+LexRequestType ==
+  [verb : Verbs, accept : HdrVals, charset : HdrVals, range : RangeVals,
+   ctype : HdrVals, cenc : HdrVals, clen : CLens,
+   body : {"validExport", "lexeme"}, lpos : LexPositions, lex : AllLexemes]
+KnownRequest(c) ==
+  \/ c \in Requests
+  \/ /\ c \in LexRequestType
+     /\ c.lex \in LexAt[c.lpos]
+     /\ c.body = LexBodyOf(c.lpos, c.lex)
 
 ValidReq == [verb |-> "POST", accept |-> "ok", charset |-> "ok",
              range |-> "absent", ctype |-> "ok", cenc |-> "ok",
-             clen |-> "ok", body |-> "validExport"]
+             clen |-> "ok", body |-> "validExport",
+             lpos |-> "none", lex |-> "none"]
 
 (* ---- which defects does a request class have ---------------------------*)
 HdrMismatch(c) ==
@@ -84,6 +174,7 @@ Defects(c) ==
   \cup (IF c.body \in MethParam THEN {"methparam"} ELSE {})
   \cup (IF c.body = "nonInstance" THEN {"noninst"} ELSE {})
   \cup (IF c.body = "dupParam" THEN {"dup"} ELSE {})
+  \cup (IF c.body = "lexeme" THEN {"lexeme"} ELSE {})
 
 IsValid(c) == Defects(c) = {}
 
@@ -113,6 +204,14 @@ Acc(d, o) ==
                             \/ o.status = 200 /\ IsError(o)
                             \/ Is4xx5xx(o) /\ o.cimerror>>
     [] d = "dup"       -> <<o.status = 200 \/ Is4xx5xx(o),
+                            \/ o.status = 200
+                            \/ Is4xx5xx(o) /\ o.cimerror>>
+    \* a lexeme outside the language of its position: the statement names
+    \* "wrong parameters" (200/ERROR) and "malformed XML" (4xx/5xx +
+    \* CIMError); a lenient reader that converts it anyway (success) is not
+    \* excluded either - but it is ONE well-formed answer, never a dropped
+    \* connection
+    [] d = "lexeme"    -> <<o.status = 200 \/ Is4xx5xx(o),
                             \/ o.status = 200
                             \/ Is4xx5xx(o) /\ o.cimerror>>
 
@@ -176,11 +275,11 @@ MayBeFull(s, e)  == e.env.qcap > 0 /\ HeldBefore(s, e) >= e.env.qcap
 
 Fails(s, e) ==
   IF e.kind = "req"
-  THEN LET f == F("KnownRequestClass", e.cls \in Requests)
-                \cup (IF e.cls \in Requests
+  THEN LET f == F("KnownRequestClass", KnownRequest(e.cls))
+                \cup (IF KnownRequest(e.cls)
                       THEN RequestFails(e.cls, e.obs, MayBeFull(s, e))
                       ELSE {})
-       IN f \cup (IF f # {} /\ e.cls \in Requests /\ IsValid(e.cls) /\ s.n > 0
+       IN f \cup (IF f # {} /\ KnownRequest(e.cls) /\ IsValid(e.cls) /\ s.n > 0
                   THEN {"SurvivesEarlierRequests"} ELSE {})
   ELSE IF e.kind = "end"
   THEN F("ListenerAlive", e.alive.server /\ e.alive.callback)
